@@ -230,7 +230,22 @@ func init() {
 			return res
 		}
 		if writable {
+			// a committing transaction is a durable write of its own: the same crash
+			// points as a write batch (before / after it becomes durable)
+			nops := len(t.pending)
+			if f, ok := hookFns["badger-flush"]; ok && nops > 0 {
+				call(fr.i, fr, 0, f, []value{"before"})
+			}
+			if f, ok := hookFns["badger-flush-dir"]; ok && nops > 0 {
+				call(fr.i, fr, 0, f, []value{"before", db.dir})
+			}
 			db.apply(t.pending)
+			if f, ok := hookFns["badger-flush"]; ok && nops > 0 {
+				call(fr.i, fr, 0, f, []value{"after"})
+			}
+			if f, ok := hookFns["badger-flush-dir"]; ok && nops > 0 {
+				call(fr.i, fr, 0, f, []value{"after", db.dir})
+			}
 		}
 		return iface{}
 	}
